@@ -484,7 +484,9 @@ class SummaryReporterV2(AbstractSummaryReporter):  # pylint: disable=invalid-nam
         stream.write(format_summary("step", self.summary_counts.steps))
 
         has_hook_errors = (self.summary_counts.hook_errors.all > 0)
-        has_hook_failed = (self.summary_counts.hook_failed.all > 0)
+        # -- NOTE: SummaryCounts provides no "hook_failed" counters (yet).
+        hook_failed_counts = getattr(self.summary_counts, "hook_failed", None)
+        has_hook_failed = bool(hook_failed_counts and hook_failed_counts.all > 0)
         if has_hook_errors:
             stream.write(format_summary("hook.errors", self.summary_counts.hook_errors))
         if has_hook_failed:
